@@ -4,6 +4,7 @@ package main
 // inlining of helpers, havoc for everything else; deferred calls.
 
 import (
+	"os"
 	"fmt"
 	"go/ast"
 	"go/parser"
@@ -115,17 +116,34 @@ func (ex *Exec) call(f *Frame, st *State, x *ssa.Call, b *ssa.BasicBlock, i int,
 		short = short[k+1:]
 	}
 	if ex.con != nil && len(ex.con.CallAsserts) > 0 {
-		// release points are anchored on the ordinal of the call across the unit's
-		// inline tree, so they also fire inside inlined helpers
-		uord := ord
-		if n, ok := ex.unitOrd[f.chain+fmt.Sprintf("%p", x)]; ok {
-			uord = n
-		} else if f.depth > 0 {
-			uord = -1
+		// release points are anchored on the ordinal of the call among the call
+		// sites of the same callee across the unit's inline tree, so they also
+		// fire inside inlined helpers; the callee is named by its last component
+		// or by a qualified suffix
+		siteKey := f.chain + fmt.Sprintf("%p", x)
+		type casT struct {
+			Clause
+			pat string
+			ord string
 		}
-		cas := append(append([]Clause(nil), ex.con.CallAsserts[fmt.Sprintf("%s#%d", short, uord)]...), ex.con.CallAsserts[short+"#*"]...)
-		if uord < 0 {
-			cas = nil
+		var cas []casT
+		for _, key := range sortedKeys(ex.con.CallAsserts) {
+			pat, ordS, ok := strings.Cut(key, "#")
+			if !ok || !calleeMatches(pat, name) {
+				continue
+			}
+			if ordS != "*" {
+				n := ex.unitOrdinal(pat, siteKey)
+				if n == 0 && f.depth == 0 {
+					n = ord // dynamic callee not seen by the static numbering
+				}
+				if fmt.Sprint(n) != ordS {
+					continue
+				}
+			}
+			for _, c := range ex.con.CallAsserts[key] {
+				cas = append(cas, casT{c, pat, ordS})
+			}
 		}
 		for k, c := range cas {
 			ec := ex.ectx(f, st)
@@ -155,7 +173,15 @@ func (ex *Exec) call(f *Frame, st *State, x *ssa.Call, b *ssa.BasicBlock, i int,
 			if lbl == "" {
 				lbl = fmt.Sprint(k + 1)
 			}
-			ex.oblige(f, st, "assert", fmt.Sprintf("%s#assert:%s#%d#%s", ex.name, short, uord, lbl), t, x.Pos(), c.Src)
+			ordName := c.ord
+			if ordName == "*" {
+				if n := ex.unitOrdinal(c.pat, siteKey); n > 0 {
+					ordName = fmt.Sprint(n)
+				} else {
+					ordName = fmt.Sprint(ord)
+				}
+			}
+			ex.oblige(f, st, "assert", fmt.Sprintf("%s#assert:%s#%s#%s", ex.name, c.pat, ordName, lbl), t, x.Pos(), c.Src)
 		}
 	}
 	wantInline := false
@@ -164,19 +190,24 @@ func (ex *Exec) call(f *Frame, st *State, x *ssa.Call, b *ssa.BasicBlock, i int,
 		if con != nil && con.Inline {
 			wantInline = true
 			inlSweep = con.Sweep
-		} else if con == nil && !ex.prog.CS.isPure(name) && ex.inModule(callee) && len(ex.prog.loopInfo(callee).headers) == 0 && instrCount(callee) <= 60 && f.depth < 3 {
+		} else if con == nil && !ex.prog.CS.isPure(name) && ex.inModule(callee) && len(ex.prog.loopInfo(callee).headers) == 0 && instrCount(callee) <= 100 && f.depth < 3 {
 			wantInline = true
 			// a helper without a contract is part of its caller: the caller's
-			// safety sweep extends into it (in the caller's context), except the
-			// nil obligations: a helper's receiver and captured variables reach it
-			// through memory cells, which says nothing about wire-decoded nils
+			// safety sweep extends into it (in the caller's context) for the index,
+			// slice, allocation and division classes. Not the nil class (a helper's
+			// receiver and captured variables reach it through memory cells) and not
+			// explicit panics (programming-error guards whose invariant is usually
+			// established by a sibling helper that may not be inlined)
 			inlSweep = map[string]bool{}
-			for k, v := range f.sweep {
-				if k != "nilmem" {
-					inlSweep[k] = v
+			for _, k := range []string{"bounds", "make", "div", "nooverflow"} {
+				if f.sweep[k] {
+					inlSweep[k] = true
 				}
 			}
 		}
+	}
+	if os.Getenv("GOVC_DEBUG_INL") != "" && callee != nil && con == nil && ex.inModule(callee) {
+		fmt.Fprintf(os.Stderr, "inl? %s instr=%d loops=%d inline=%v\n", name, instrCount(callee), len(ex.prog.loopInfo(callee).headers), wantInline)
 	}
 	if con != nil && !con.Inline {
 		res := ex.applyContract(f, st, x, con, name, ord, callee, sig, args)
